@@ -10,7 +10,7 @@
 (*                                                                                *)
 (* Functions reach the terminal through the public character interface:            *)
 (* FeedStr(vt, Enc(fn)), with the lemma EncRoundTrip(fn) checked on the way.       *)
-EXTENDS StepProps, Encode, Json
+EXTENDS StepProps, Encode, Dump, Json
 
 CONSTANTS Sizes,            \* set of <<cols, rows>>
           Limits,           \* set of scrollback limits (-1 = unlimited)
@@ -18,7 +18,8 @@ CONSTANTS Sizes,            \* set of <<cols, rows>>
           Alphabet(_),      \* Term -> set of Function values to try in that state
           Resizes(_),       \* Term -> set of <<cols, rows>> to resize to
           MaxDepth,         \* number of calls after the fill
-          Emit              \* print every transition as a replayable behaviour
+          Emit,             \* print every transition as a replayable behaviour
+          CheckDump         \* also check C11 (dump / restore / probes) in every state reached
 
 VARIABLES vt,     \* the Vt
           hist,   \* [init, ops]: how this state was reached (hidden from the fingerprint by VIEW)
@@ -35,18 +36,38 @@ JudgeCall(pre, fns, r) ==
   /\ ChangesOK(r.ch, r.vt.t.rows)
   /\ Bound(r.vt)
   /\ ChangesSound(pre, r.vt, r.ch)
+(* C11 on the specification: the terminal restored from the dump is              *)
+(* observationally equal now and after each probe of the battery (outside the     *)
+(* two dump-time classes the property list keeps as findings)                     *)
+DumpProbes ==
+  { <<27, 91, 49, 59, 49, 72, 88>>,                              \* CUP 1;1 X        (origin / top margin)
+    <<10>>, <<27, 91, 57, 57, 57, 59, 49, 72, 10, 89>>,          \* LF ; CUP 999;1 LF Y   (bottom margin, scroll)
+    <<27, 91, 49, 59, 57, 57, 57, 72, 97, 98>>,                  \* CUP 1;999 a b    (auto-wrap)
+    <<14, 97, 113, 15, 113>>,                                    \* SO a q SI q      (charsets)
+    <<13, 9, 9, 84>>,                                            \* CR HT HT T       (tabs)
+    <<27, 56, 80>>,                                              \* DECRC P          (saved context, pen)
+    <<155, 63, 49, 48, 52, 55, 104, 27, 56, 81>>,                \* ?1047h DECRC Q   (other screen's context)
+    <<155, 63, 49, 48, 52, 55, 108, 82>>,                        \* ?1047l R
+    <<97, 98, 99>>, <<13, 10>>,                                  \* insert mode, new-line mode
+    <<109>>, <<59, 53, 72>>, <<27, 92>> }                        \* the rest of a cut sequence
+DumpOK(v) ==
+  \/ DumpClasses(v) # {}
+  \/ LET rs == Restored(v) IN
+     /\ ObsEq(v, rs)
+     /\ \A p \in DumpProbes : ObsEq(FeedStr(v, p).vt, FeedStr(rs, p).vt)
 JudgeFn(pre, fn, r) ==
-  /\ JudgeCall(pre, <<fn>>, r)
+  /\ JudgeCall(pre, Functions(pre.p, Enc(fn)), r)
   /\ EncRoundTrip(fn)
-  /\ r.vt.p = InitP \/ r.vt.p.state = "Ground"
-  /\ StepProp(pre.t, fn) # "none" => StepOK(pre.t, fn, r.vt.t, r.ch, Drained(r.dr))
-  /\ fn.f = "Ris" => FreshEq(r.vt, Fresh(pre.t.cols, pre.t.rows, pre.t.lim))          \* C19
+  /\ (CheckDump => DumpOK(r.vt))
+  /\ (fn.f # "Raw" /\ pre.p.state = "Ground" /\ StepProp(pre.t, fn) # "none") => StepOK(pre.t, fn, r.vt.t, r.ch, Drained(r.dr))
+  /\ (fn.f = "Ris" /\ pre.p.state = "Ground") => FreshEq(r.vt, Fresh(pre.t.cols, pre.t.rows, pre.t.lim))          \* C19
 JudgeResize(pre, r) ==
   /\ JudgeCall(pre, <<>>, r)
   /\ TabsResizeOK(pre.t, r.vt.t)                                                       \* C18
   /\ (r.vt.t.rows # pre.t.rows => r.vt.t.top = 0 /\ r.vt.t.bottom = r.vt.t.rows - 1)   \* C05/C06
   /\ (r.vt.t.rows = pre.t.rows => r.vt.t.top = pre.t.top /\ r.vt.t.bottom = pre.t.bottom)
   /\ (~pre.t.alt /\ pre.t.lim = -1) => ResizeTextOK(pre.t, r.vt.t)                    \* C10
+  /\ (CheckDump => DumpOK(r.vt))
 
 Behaviour(h, st) == "@@ BEHAVIOUR " \o ToJson([init |-> h.init, ops |-> h.ops, st |-> st])
 
@@ -55,7 +76,7 @@ Init ==
     LET r == FeedStr(Fresh(sz[1], sz[2], lim), fill) IN
     /\ vt = r.vt
     /\ hist = [init |-> <<sz[1], sz[2], lim>>, ops |-> <<[k |-> "fs", s |-> fill]>>]
-    /\ ok = (GeomOK(r.vt) /\ Bound(r.vt))
+    /\ ok = (GeomOK(r.vt) /\ Bound(r.vt) /\ (CheckDump => DumpOK(r.vt)))
     /\ Emit => PrintT(Behaviour(hist, vt))
 
 Feed ==
